@@ -29,10 +29,18 @@ def main():
     wt = tempfile.mkdtemp(prefix="seedwt_", dir="/tmp")
     os.rmdir(wt)
     res = {"id": sid, "property": prop}
+    demo_arg = demo
     try:
         r = sh("git -C /repo worktree add -q --detach %s HEAD" % wt)
         assert r.returncode == 0, r.stdout
         env = dict(os.environ, PYTHONPATH=wt)
+        # the demonstration may name the worktree it was written in; run a copy that names this scratch worktree
+        origin = os.path.dirname(os.path.dirname(os.path.abspath(seed_dir.rstrip("/"))))
+        src = open(demo).read()
+        demo_run = os.path.join(wt, "_seed_demo.py")
+        with open(demo_run, "w") as fh:
+            fh.write(src.replace(origin, wt) if origin.startswith("/tmp/") else src)
+        demo_arg, demo = demo, demo_run
         r0 = sh("/venv/bin/python %s" % demo, cwd=wt, env=env)
         res["demo_without_change_rc"] = r0.returncode
         r = sh("git -C %s apply %s" % (wt, os.path.abspath(patch)))
@@ -69,7 +77,7 @@ def main():
         dst = os.path.join(ROOT, "seeded", sid)
         os.makedirs(dst, exist_ok=True)
         shutil.copy(patch, os.path.join(dst, "patch.diff"))
-        shutil.copy(demo, os.path.join(dst, "demo.py"))
+        shutil.copy(demo_arg, os.path.join(dst, "demo.py"))
         needs = ""
         if os.path.exists(notes):
             shutil.copy(notes, os.path.join(dst, "NOTES.md"))
